@@ -130,6 +130,7 @@ type ScriptFS struct {
 	AuthCheckErr func(inv *Inv) bool
 	AuthHold     func(inv *Inv) bool // park this AuthRead / AuthWrite until released
 	DestroyHold  func(inv *Inv) bool // park this FidDestroy until released
+	FlushHold    func(inv *Inv) bool // park this FlushOp.Flush call until released
 	Dotu         func(conn int) bool // negotiated dialect per connection, for expected replies
 	// flush hook: called when the implementation's Flush sees target
 	flushes []*Inv
@@ -496,6 +497,13 @@ func (f *ScriptFS) onFlush(target *go9p.SrvReq) {
 	f.Log = append(f.Log, inv)
 	if ti != nil {
 		rt.HBAcquire(unsafe.Pointer(&ti.hb))
+	}
+	if f.FlushHold != nil && f.FlushHold(inv) {
+		// an implementation whose Flush takes its time
+		inv.Held = true
+		f.x.Fault("hold")
+		rt.YieldUntil(rt.SiteHold, func() bool { return f.released(inv) })
+		inv.Held = false
 	}
 	if (ti == nil || ti.Plan == nil) && f.FlushAlways {
 		// an implementation that cancels unconditionally, as the FlushOp documentation suggests
